@@ -2,6 +2,7 @@ package rules
 
 import (
 	"fmt"
+	"go/token"
 	"go/types"
 	"regexp"
 	"sort"
@@ -608,6 +609,73 @@ func c05Extra(c *Ctx) {
 			}
 		}
 		r.Check("C05.2", "success:validateSpec", ok, c.U.Pos(fn.Pos()), "validateSpec succeeds only without a validator or when the validator accepts")
+	}
+	// the size that is compared with the limit is the SUM over all entries: an accumulator
+	// that starts at 0 and to which every iteration adds len(key) and len(value)
+	if fn := c.fn("C05.2", "k8s", "ValidateAnnotationsSize"); fn != nil {
+		okSum, okLimit := false, false
+		for _, iff := range ir.Ifs(fn) {
+			op, x, y, isCmp := ir.Comparison(iff)
+			if !isCmp || (op != token.GTR && op != token.GEQ) {
+				continue
+			}
+			if lim, isInt := ir.ConstInt(y); isInt && lim == 256*(1<<10) && op == token.GTR {
+				okLimit = true
+			}
+			phi, isPhi := x.(*ssa.Phi)
+			if !isPhi {
+				continue
+			}
+			zero, acc := false, false
+			for _, e := range phi.Edges {
+				if k, isInt := ir.ConstInt(e); isInt && k == 0 {
+					zero = true
+					continue
+				}
+				// the value carried round the loop: sums that contain the accumulator itself
+				// and two len() terms of the iteration's key and value
+				self, lens := false, 0
+				var walk func(v ssa.Value, depth int)
+				walk = func(v ssa.Value, depth int) {
+					if depth > 8 {
+						return
+					}
+					if v == ssa.Value(phi) {
+						self = true
+						return
+					}
+					switch t := v.(type) {
+					case *ssa.BinOp:
+						if t.Op == token.ADD {
+							walk(t.X, depth+1)
+							walk(t.Y, depth+1)
+						}
+					case *ssa.Convert:
+						walk(t.X, depth+1)
+					case *ssa.Phi:
+						for _, pe := range t.Edges {
+							walk(pe, depth+1)
+						}
+					case *ssa.Call:
+						if ir.BuiltinName(t) == "len" {
+							if ex, isEx := t.Call.Args[0].(*ssa.Extract); isEx {
+								if _, isNext := ex.Tuple.(*ssa.Next); isNext && (ex.Index == 1 || ex.Index == 2) {
+									lens++
+								}
+							}
+						}
+					}
+				}
+				walk(e, 0)
+				if self && lens == 2 {
+					acc = true
+				}
+			}
+			if zero && acc {
+				okSum = true
+			}
+		}
+		r.Check("C05.2", "annotations-total-size", okSum && okLimit, c.U.Pos(fn.Pos()), "the quantity compared with the 256 kB limit is the running total over all annotations (starts at 0, every entry adds len(key)+len(value)), and the limit is exceeded only by sizes above it")
 	}
 	// annotations: k8s.ValidateAnnotations checks every key and the total size
 	if fn := c.fn("C05.2", "k8s", "ValidateAnnotations"); fn != nil {
